@@ -215,10 +215,6 @@ than it has room for (`Run` may already have left its select when they send) -/
 def allGuarded (cfg : Cfg) (progs : List (List BP)) : Bool :=
   progs.all (fun p => p.all BP.guarded) && decide (errSenders progs ≤ cfg.cap .errCh)
 
-/-- the table minus its unguarded points (plain `errCh <-` sends count as unguarded) -/
-def strip (progs : List (List BP)) : List (List BP) :=
-  progs.map fun p => p.filter fun b => b.guarded && b != .errSend
-
 /-! ## executable scheduler used by the driver: park chosen workers, cancel, run the node's own actions -/
 
 def execAll (cfg : Cfg) (s : St) (as : List Act) : St :=
@@ -270,7 +266,8 @@ regenerated -/
 def capOf (e h d : Nat) : Chan → Nat
   | .errCh => e | .headerInCh => h | .dataInCh => d | _ => 1
 
-/-- the raw points that are not guarded (every plain send on `errCh` is listed) -/
+/-- the raw points that are not guarded; every plain (blocking) send on `errCh` is listed too, since whether it can
+park its worker for ever depends on the other writers of `errCh` -/
 def unguardedRaw (pts : List RawPoint) : List RawPoint :=
   pts.filter fun p => let b := bpOf p.2.1 p.2.2.1 p.2.2.2; !(b.guarded && b != .errSend)
 
